@@ -1040,6 +1040,113 @@ pub fn has_irregular_token(text: &str) -> bool {
     })
 }
 
+thread_local! {
+    /// texts of the documents whose `relex` line is still a placeholder, in file order
+    static PENDING_DOCS: std::cell::RefCell<Vec<String>> = const { std::cell::RefCell::new(Vec::new()) };
+}
+
+/// `toks` line followed by the placeholder of the `relex` line (filled in by `resolve_relex`).
+fn doc_lines(out: &mut Out, text: &str) {
+    out.line(toks_line(text));
+    out.line("relex ?");
+    PENDING_DOCS.with(|d| d.borrow_mut().push(text.to_string()));
+}
+
+/// `relexes_to(text, tokens, source)` of formatting.rs, on the non-trivia tokens of one source line.
+fn relexes_to(glued: &str, line_tokens: &[(TokenKind, &str)]) -> bool {
+    let relexed: Vec<(TokenKind, &str)> = lex(glued)
+        .into_iter()
+        .filter(|t| t.kind != TokenKind::Whitespace)
+        .map(|t| (t.kind, &glued[usize::from(t.range.start())..usize::from(t.range.end())]))
+        .collect();
+    relexed.len() == line_tokens.len()
+        && relexed.iter().zip(line_tokens).all(|((nk, nt), (ok, ot))| {
+            nk == ok && if ok.is_keyword() { nt.eq_ignore_ascii_case(ot) } else { nt == ot }
+        })
+}
+
+/// The re-lex guard of `format_line_tokens` needs the lexer, which the Lean model does not have: the
+/// model prints the glued text of every line (`driver c15 glued`), the real lexer gives the verdict, and
+/// the verdicts are written into the `relex` lines that the model reads.
+fn resolve_relex(out: &mut Out, driver: &Path) -> Result<(), String> {
+    let docs = PENDING_DOCS.with(|d| std::mem::take(&mut *d.borrow_mut()));
+    if docs.is_empty() {
+        return Ok(());
+    }
+    let mut child = Command::new(driver)
+        .args(["c15", "glued"])
+        .stdin(Stdio::piped())
+        .stdout(Stdio::piped())
+        .stderr(Stdio::null())
+        .spawn()
+        .map_err(|e| format!("cannot start {}: {e}", driver.display()))?;
+    let mut stdin = child.stdin.take().unwrap();
+    let input = out.buf.clone();
+    let writer = std::thread::spawn(move || {
+        let _ = stdin.write_all(input.as_bytes());
+    });
+    let mut answer = String::new();
+    use std::io::Read as _;
+    child.stdout.take().unwrap().read_to_string(&mut answer).map_err(|e| e.to_string())?;
+    let _ = writer.join();
+    let _ = child.wait();
+    let mut verdicts: Vec<String> = Vec::new();
+    let mut fallbacks = 0u64;
+    let mut queries = 0u64;
+    for line in answer.lines() {
+        if line.starts_with("bad-op") {
+            return Err("driver c15 glued answered bad-op".into());
+        }
+        let Some(rest) = line.strip_prefix("q ") else { continue };
+        let text = docs.get(verdicts.len()).ok_or("more documents in the driver's answer than sent")?;
+        // non-trivia tokens by the line they start on (as format_document assigns them)
+        let mut starts = vec![0usize];
+        starts.extend(text.bytes().enumerate().filter(|(_, b)| *b == b'\n').map(|(i, _)| i + 1));
+        let mut by_line: Vec<Vec<(TokenKind, &str)>> = vec![Vec::new(); starts.len()];
+        for t in lex(text) {
+            if t.kind.is_trivia() {
+                continue;
+            }
+            let start = usize::from(t.range.start());
+            let li = starts.partition_point(|s| *s <= start) - 1;
+            by_line[li].push((t.kind, &text[start..usize::from(t.range.end())]));
+        }
+        let mut bad = Vec::new();
+        for q in rest.split(' ').skip(2) {
+            if q == "-" {
+                continue;
+            }
+            let (idx, hx) = q.split_once(':').ok_or("malformed q line")?;
+            let idx: usize = idx.parse().map_err(|_| "malformed q line")?;
+            let glued = String::from_utf8(crate::util::unhex(hx)).map_err(|_| "glued text is not UTF-8")?;
+            queries += 1;
+            if !relexes_to(&glued, by_line.get(idx).map(|v| v.as_slice()).unwrap_or(&[])) {
+                bad.push(idx.to_string());
+                fallbacks += 1;
+            }
+        }
+        verdicts.push(if bad.is_empty() { "relex -".to_string() } else { format!("relex {}", bad.join(",")) });
+    }
+    if verdicts.len() != docs.len() {
+        return Err(format!("driver c15 glued answered {} documents, {} were sent", verdicts.len(), docs.len()));
+    }
+    let mut k = 0usize;
+    let mut buf = String::with_capacity(out.buf.len());
+    for line in out.buf.lines() {
+        if line == "relex ?" {
+            buf.push_str(&verdicts[k]);
+            k += 1;
+        } else {
+            buf.push_str(line);
+        }
+        buf.push('\n');
+    }
+    out.buf = buf;
+    out.add("relex-guard-queries", queries);
+    out.add("relex-guard-fallbacks", fallbacks);
+    Ok(())
+}
+
 pub fn toks_line(text: &str) -> String {
     let mut s = String::from("toks");
     let mut any = false;
@@ -1508,7 +1615,7 @@ fn run_case(
     out.line(cfg.line());
     out.line(format!("# doc 0 source {}", json!(text)));
     out.line(format!("src {}", hex(text.as_bytes())));
-    out.line(toks_line(text));
+    doc_lines(out, text);
     if has_irregular_token(text) {
         out.line("# irregular source");
         out.count("text-with-irregular-token");
@@ -1572,7 +1679,7 @@ fn run_case(
         if f != text {
             out.line(format!("# doc 1 lsp-formatted {}", json!(f)));
             out.line(format!("src {}", hex(f.as_bytes())));
-            out.line(toks_line(&f));
+            doc_lines(out, &f);
             if has_irregular_token(&f) {
                 out.line("# irregular lsp-formatted");
             }
@@ -1595,7 +1702,7 @@ fn run_case(
         if wt != text {
             out.line(format!("# doc 2 web-formatted {}", json!(wt)));
             out.line(format!("src {}", hex(wt.as_bytes())));
-            out.line(toks_line(&wt));
+            doc_lines(out, &wt);
             out.line("web");
             match web_format(&web.0, &web.1, &wt) {
                 Ok(w2) => {
@@ -1734,6 +1841,15 @@ pub fn run(args: &Args) -> i32 {
     }
     out.add("lsp-restarts", sessions.restarts);
     sessions.stop_all();
+    let driver = args.extra.get("driver").map(PathBuf::from).unwrap_or_else(|| {
+        let exe = std::env::current_exe().expect("exe");
+        // <worktree>/.build/cargo/debug/vharness -> <worktree>/lean/.lake/build/bin/driver
+        exe.parent().unwrap().parent().unwrap().parent().unwrap().parent().unwrap().join("lean/.lake/build/bin/driver")
+    });
+    if let Err(e) = resolve_relex(&mut out, &driver) {
+        eprintln!("re-lex verdicts: {e}");
+        code = 3;
+    }
     out.finish(&args.out);
     code
 }
